@@ -442,7 +442,6 @@ func ruleJobOffsetAgrees(p *Prog, r *Res) {
 			continue
 		}
 		callee := gs.Callee
-		cinfo := callee.Pkg.TypesInfo
 		for i, a := range gs.Stmt.Call.Args {
 			t := info.TypeOf(a)
 			if b, ok := t.Underlying().(*types.Basic); !ok || b.Info()&types.IsInteger == 0 {
@@ -452,24 +451,9 @@ func ruleJobOffsetAgrees(p *Prog, r *Res) {
 			if po == nil {
 				continue
 			}
-			// does the callee (incl. its closures) use the parameter as a bound of a slice of Manager.indexes?
-			usedAsBound := false
-			ast.Inspect(callee.Body(), func(x ast.Node) bool {
-				if sl, ok := x.(*ast.SliceExpr); ok && isFieldOf(cinfo, sl.X, idxFld) {
-					for _, bnd := range []ast.Expr{sl.Low, sl.High} {
-						if bnd == nil {
-							continue
-						}
-						ast.Inspect(bnd, func(y ast.Node) bool {
-							if id, ok := y.(*ast.Ident); ok && cinfo.Uses[id] == po {
-								usedAsBound = true
-							}
-							return true
-						})
-					}
-				}
-				return true
-			})
+			// does the callee (incl. its closures and the package helpers it hands the value to) use the parameter as a bound
+			// of a slice of Manager.indexes?
+			usedAsBound := boundsIndexes(p, callee, po, idxFld, 2)
 			if !usedAsBound {
 				continue
 			}
@@ -584,4 +568,82 @@ func init() {
 			})
 			r.Floor(rule, 1, n)
 		})
+}
+
+// boundsIndexes: fn (closures included) uses the variable v — or a local derived from it — as a bound of a slice
+// expression on Manager.indexes, directly or through a package function it passes the value to (depth levels).
+func boundsIndexes(p *Prog, fn *Fn, v types.Object, idxFld *types.Var, depth int) bool {
+	if fn == nil || fn.Body() == nil || depth < 0 {
+		return false
+	}
+	info := fn.Pkg.TypesInfo
+	derived := map[types.Object]bool{v: true}
+	mentions := func(e ast.Node) bool {
+		hit := false
+		ast.Inspect(e, func(y ast.Node) bool {
+			if id, ok := y.(*ast.Ident); ok && derived[info.Uses[id]] {
+				hit = true
+			}
+			return !hit
+		})
+		return hit
+	}
+	for changed := true; changed; {
+		changed = false
+		ast.Inspect(fn.Body(), func(x ast.Node) bool {
+			if as, ok := x.(*ast.AssignStmt); ok && len(as.Lhs) == len(as.Rhs) {
+				for i, l := range as.Lhs {
+					if o := identObj(info, l); o != nil && !derived[o] && mentions(as.Rhs[i]) {
+						if b, ok := o.Type().Underlying().(*types.Basic); ok && b.Info()&types.IsInteger != 0 {
+							derived[o] = true
+							changed = true
+						}
+					}
+				}
+			}
+			return true
+		})
+	}
+	used := false
+	ast.Inspect(fn.Body(), func(x ast.Node) bool {
+		if used {
+			return false
+		}
+		switch s := x.(type) {
+		case *ast.SliceExpr:
+			if isFieldOf(info, s.X, idxFld) {
+				for _, bnd := range []ast.Expr{s.Low, s.High} {
+					if bnd != nil && mentions(bnd) {
+						used = true
+					}
+				}
+			}
+		case *ast.CallExpr:
+			callee := p.Callee(fn.Pkg, s)
+			if callee == nil {
+				return true
+			}
+			h := p.FnOfObj(callee)
+			if h == nil || h == fn || h.Pkg != fn.Pkg {
+				// slices.Replace(mgr.indexes, i, j, …) and friends
+				if callee.Pkg() != nil && callee.Pkg().Path() == "slices" && len(s.Args) >= 2 && isFieldOf(info, s.Args[0], idxFld) {
+					for _, a := range s.Args[1:] {
+						if mentions(a) {
+							used = true
+						}
+					}
+				}
+				return true
+			}
+			for i, a := range s.Args {
+				if mentions(a) {
+					if po := paramObj(h, i); po != nil && boundsIndexes(p, h, po, idxFld, depth-1) {
+						used = true
+					}
+				}
+			}
+		}
+		return true
+	})
+	return used
 }
